@@ -45,7 +45,16 @@ extern "C" {
     // trampolines
     fn verif_tramp_sysv(f: *const c_void, args: *const u64, out: *mut u64);
     fn verif_tramp_win64(f: *const c_void, args: *const u64, out: *mut u64);
+    /// where the trampolines put the stack: rsp = -skew (mod 64) before the arguments are pushed
+    static mut verif_stack_skew: u64;
 }
+
+/// Stack placement policy of the trampolines: 0..=3 = that placement for every call, 4 = rotate
+/// through the four 16-byte placements modulo 64 call by call (sweeps), 5 = every call at all four
+/// (replays). A routine whose frame is wrong only for some entry alignments shows up under 4 and
+/// reproduces under 5.
+pub static SKEW_MODE: std::sync::atomic::AtomicU64 = std::sync::atomic::AtomicU64::new(4);
+static TRAMP_CALLS: std::sync::atomic::AtomicU64 = std::sync::atomic::AtomicU64::new(0);
 
 #[derive(Clone, Copy, Debug, PartialEq, Eq)]
 pub enum Abi {
@@ -126,6 +135,27 @@ const SENT_XMM: [u64; 20] = [
 /// Call `f` through the register-sentinel trampoline of its ABI. Returns a description of the
 /// first calling-convention violation, if any.
 pub unsafe fn tramp(abi: Abi, f: unsafe extern "C" fn(), args: &[u64; 10]) -> Option<String> {
+    use std::sync::atomic::Ordering::SeqCst;
+    let mode = SKEW_MODE.load(SeqCst);
+    let n = TRAMP_CALLS.fetch_add(1, SeqCst);
+    let skews: Vec<u64> = match mode {
+        0..=3 => vec![mode],
+        4 => vec![n % 4],
+        _ => vec![0, 1, 2, 3],
+    };
+    let mut first = None;
+    for sk in skews {
+        verif_stack_skew = sk * 16;
+        if let Some(w) = tramp_once(abi, f, args) {
+            if first.is_none() {
+                first = Some(format!("{} (stack placement: rsp = {} mod 64 at the call)", w, (64 - (sk * 16 + if abi == Abi::SysV { 32 } else { 80 }) % 64) % 64));
+            }
+        }
+    }
+    first
+}
+
+unsafe fn tramp_once(abi: Abi, f: unsafe extern "C" fn(), args: &[u64; 10]) -> Option<String> {
     let mut out = [0u64; 32];
     match abi {
         Abi::SysV => verif_tramp_sysv(f as *const c_void, args.as_ptr(), out.as_mut_ptr()),
